@@ -1508,8 +1508,9 @@ impl<'a, 'b, W: Write> Serializer for &'a mut YamlSerializer<'b, W> {
         } else if name == NAME_TUPLE_COMMENTED {
             Ok(TupleSer::commented(self))
         } else {
-            // Treat as normal block sequence
-            Ok(TupleSer::normal(self))
+            // An ordinary tuple struct is a sequence: same placement rules, block or flow.
+            let seq = self.serialize_seq(None)?;
+            Ok(TupleSer::normal(seq))
         }
     }
 
@@ -1894,20 +1895,22 @@ pub struct TupleSer<'a, 'b, W: Write> {
     comment_text: Option<String>,
 }
 enum TupleKind {
-    Normal,       // treat as block seq
+    /// An ordinary tuple struct, written as the sequence opened by `serialize_seq`.
+    Normal {
+        flow: bool,
+    },
     AnchorStrong, // [ptr, value]
     AnchorWeak,   // [ptr, present, value]
     Commented,    // [comment, value]
 }
 impl<'a, 'b, W: Write> TupleSer<'a, 'b, W> {
-    /// Create a tuple serializer for normal tuple-structs.
-    fn normal(ser: &'a mut YamlSerializer<'b, W>) -> Self {
-        let depth_next = ser.depth + 1;
+    /// Create a tuple serializer for normal tuple-structs, on top of an already opened sequence.
+    fn normal(seq: SeqSer<'a, 'b, W>) -> Self {
         Self {
-            ser,
-            kind: TupleKind::Normal,
+            ser: seq.ser,
+            kind: TupleKind::Normal { flow: seq.flow },
             idx: 0,
-            depth_for_normal: depth_next,
+            depth_for_normal: seq.depth,
             strong_alias_id: None,
             weak_present: false,
             skip_third: false,
@@ -1965,28 +1968,14 @@ impl<'a, 'b, W: Write> SerializeTupleStruct for TupleSer<'a, 'b, W> {
 
     fn serialize_field<T: ?Sized + Serialize>(&mut self, value: &T) -> Result<()> {
         match self.kind {
-            TupleKind::Normal if self.ser.in_flow > 0 => {
-                // Inside a flow collection there are no block sequences: write `[a, b]`.
-                if self.idx == 0 {
-                    self.ser.write_space_if_pending()?;
-                    self.ser.write_anchor_for_complex_node()?;
-                    self.ser.out.write_str("[")?;
-                } else {
-                    self.ser.out.write_str(", ")?;
-                }
-                value.serialize(&mut *self.ser)?;
-            }
-            TupleKind::Normal => {
-                if self.idx == 0 {
-                    self.ser.write_anchor_for_complex_node()?;
-                    if !self.ser.at_line_start {
-                        self.ser.newline()?;
-                    }
-                }
-                self.ser.write_indent(self.ser.depth + 1)?;
-                self.ser.out.write_str("- ")?;
-                self.ser.at_line_start = false;
-                value.serialize(&mut *self.ser)?;
+            TupleKind::Normal { flow } => {
+                let mut seq = SeqSer {
+                    ser: &mut *self.ser,
+                    depth: self.depth_for_normal,
+                    flow,
+                    first: self.idx == 0,
+                };
+                SerializeSeq::serialize_element(&mut seq, value)?;
             }
             TupleKind::AnchorStrong => {
                 match self.idx {
@@ -2095,12 +2084,13 @@ impl<'a, 'b, W: Write> SerializeTupleStruct for TupleSer<'a, 'b, W> {
     }
 
     fn end(self) -> Result<()> {
-        if matches!(self.kind, TupleKind::Normal) && self.ser.in_flow > 0 {
-            if self.idx == 0 {
-                self.ser.write_space_if_pending()?;
-                self.ser.out.write_str("[")?;
-            }
-            self.ser.out.write_str("]")?;
+        if let TupleKind::Normal { flow } = self.kind {
+            return SerializeSeq::end(SeqSer {
+                ser: self.ser,
+                depth: self.depth_for_normal,
+                flow,
+                first: self.idx == 0,
+            });
         }
         Ok(())
     }
